@@ -162,11 +162,14 @@ struct Cfg {
     dups: u8,
     acks: u8,
     cap: usize,
+    /// a tick whose world equals the acknowledged base is announced with the data-less
+    /// SnapEmpty message (what Teeworlds/DDNet servers do; `delta_chunks` emits it for empty data)
+    send_empty: bool,
 }
 
 impl Cfg {
     fn label(&self) -> String {
-        format!("snapshots worlds{:?} ticks{} drops{} dups{} acks{} cap{}", self.worlds, self.ticks, self.drops, self.dups, self.acks, self.cap)
+        format!("snapshots worlds{:?} ticks{} drops{} dups{} acks{} cap{}{}", self.worlds, self.ticks, self.drops, self.dups, self.acks, self.cap, if self.send_empty { " empty-when-unchanged" } else { "" })
     }
 }
 
@@ -252,6 +255,10 @@ impl M {
                 let delta = st.add_snap(tick, snap);
                 let mut buf: Vec<u8> = Vec::with_capacity(64 * 1024);
                 with_packer(&mut buf, |p| delta.write(obj_size, p).map(|b| b.len())).expect("delta fits");
+                if self.cfg.send_empty && buf == [0, 0, 0] {
+                    // nothing deleted, nothing updated: the data-less message
+                    buf.clear();
+                }
                 for m in delta_chunks(tick, delta_tick, &buf, crc) {
                     let o = OMsg::from(&m);
                     let pos = s.msgs.binary_search(&o).unwrap_or_else(|p| p);
@@ -465,17 +472,21 @@ fn main() {
     let run = Run::new("C13", "model_checking");
     let cfgs = match run.tier {
         Tier::Quick => vec![
-            Cfg { worlds: vec![1, 2, 4], ticks: 3, drops: 1, dups: 0, acks: 2, cap: 4 },
-            Cfg { worlds: vec![1, 4], ticks: 2, drops: 1, dups: 1, acks: 2, cap: 4 },
-            Cfg { worlds: vec![0, 2, 3, 5], ticks: 3, drops: 1, dups: 0, acks: 2, cap: 4 },
-            Cfg { worlds: vec![6, 7, 8], ticks: 3, drops: 0, dups: 1, acks: 2, cap: 4 },
+            Cfg { worlds: vec![1, 2, 4], ticks: 3, drops: 1, dups: 0, acks: 2, cap: 4, send_empty: false },
+            Cfg { worlds: vec![1, 4], ticks: 2, drops: 1, dups: 1, acks: 2, cap: 4, send_empty: false },
+            Cfg { worlds: vec![0, 2, 3, 5], ticks: 3, drops: 1, dups: 0, acks: 2, cap: 4, send_empty: false },
+            Cfg { worlds: vec![6, 7, 8], ticks: 3, drops: 0, dups: 1, acks: 2, cap: 4, send_empty: false },
+            Cfg { worlds: vec![1, 2, 0], ticks: 3, drops: 1, dups: 0, acks: 2, cap: 4, send_empty: true },
+            Cfg { worlds: vec![1, 2], ticks: 4, drops: 0, dups: 0, acks: 3, cap: 4, send_empty: true },
         ],
         Tier::Thorough => vec![
-            Cfg { worlds: vec![0, 1, 2, 4], ticks: 4, drops: 2, dups: 1, acks: 3, cap: 4 },
-            Cfg { worlds: vec![1, 2, 3, 5], ticks: 4, drops: 1, dups: 1, acks: 3, cap: 4 },
-            Cfg { worlds: vec![1, 4], ticks: 5, drops: 2, dups: 1, acks: 3, cap: 5 },
-            Cfg { worlds: vec![6, 7, 8], ticks: 4, drops: 1, dups: 1, acks: 3, cap: 4 },
-            Cfg { worlds: vec![1, 6, 7], ticks: 5, drops: 0, dups: 1, acks: 3, cap: 4 },
+            Cfg { worlds: vec![0, 1, 2, 4], ticks: 4, drops: 2, dups: 1, acks: 3, cap: 4, send_empty: false },
+            Cfg { worlds: vec![1, 2, 3, 5], ticks: 4, drops: 1, dups: 1, acks: 3, cap: 4, send_empty: false },
+            Cfg { worlds: vec![1, 4], ticks: 5, drops: 2, dups: 1, acks: 3, cap: 5, send_empty: false },
+            Cfg { worlds: vec![6, 7, 8], ticks: 4, drops: 1, dups: 1, acks: 3, cap: 4, send_empty: false },
+            Cfg { worlds: vec![1, 6, 7], ticks: 5, drops: 0, dups: 1, acks: 3, cap: 4, send_empty: false },
+            Cfg { worlds: vec![1, 2, 0], ticks: 4, drops: 1, dups: 0, acks: 3, cap: 4, send_empty: true },
+            Cfg { worlds: vec![0, 1, 2, 4], ticks: 4, drops: 1, dups: 1, acks: 3, cap: 4, send_empty: true },
         ],
     };
     let mut total_states = 0u64;
@@ -537,7 +548,7 @@ fn main() {
     // never, every `k`-th tick, or only once after `k` ticks.
     if run.num_violations() == 0 {
         let mut long_total = 0u64;
-        let cfg = Cfg { worlds: vec![1, 2, 6, 7], ticks: 255, drops: 0, dups: 0, acks: 255, cap: 8 };
+        let cfg = Cfg { worlds: vec![1, 2, 6, 7], ticks: 255, drops: 0, dups: 0, acks: 255, cap: 8, send_empty: false };
         let label = cfg.label();
         let m = M { cfg, run: run.clone(), worlds: worlds(), stats: Stats::default(), samples: Mutex::new(Vec::new()) };
         let lens: &[usize] = if run.tier == Tier::Thorough { &[99, 100, 101, 102, 103, 130, 201, 205, 250] } else { &[101, 103, 205] };
@@ -593,7 +604,7 @@ fn main() {
     run.set("samples", json!(samples_json));
     run.add_evals(total_trans);
     run.assume("the state key of the real Storage/Manager objects is the hash of the complete history of operations applied to each (they are deterministic functions of it); states are therefore merged only when both objects have identical histories and the channels/budgets agree - an over-fine key, which costs states but cannot hide any");
-    run.assume("the sender follows the storage API exactly as server/src/main.rs does (new_builder, add, finish, add_snap, Delta::write, delta_chunks); the receiver acknowledges ack_tick() or -1");
+    run.assume("the sender follows the storage API exactly as server/src/main.rs does (new_builder, add, finish, add_snap, Delta::write, delta_chunks); the receiver acknowledges ack_tick() or -1; in the empty-when-unchanged configurations a delta without deletions and updates is announced with the data-less SnapEmpty message");
     run.finish(
         "explicit-state exploration (stateright BFS) of a real sender Storage and a real receiver Manager joined by lossy/duplicating/reordering channels for snapshot messages and acknowledgements; worlds include ordinal items, two UUID types of different sizes a 300-word item that forces a multi-part transfer, and three different worlds with equal checksums; whenever the receiver accepts a tick its snapshot equals the sender's through items() and item(type,id); on error the acknowledged tick does not move to that tick; nothing panics; plus linear histories of 101..250 snapshots delivered in order with acknowledgements never / regularly / once (the stores on both sides hold 100 snapshots)",
         true,
